@@ -622,21 +622,16 @@ i_mep i_mep::cse() const
   {
     bool operator()(const gene &a, const gene &b) const
     {
-      if (a.sym->opcode() < b.sym->opcode())
-        return true;
+      if (a.sym->opcode() != b.sym->opcode())
+        return a.sym->opcode() < b.sym->opcode();
 
-      if (a.sym->opcode() == b.sym->opcode())
-      {
-        if (a.sym->terminal())
-          return terminal::cast(a.sym)->parametric() ? a.par < b.par : false;
+      if (a.sym->terminal())
+        return terminal::cast(a.sym)->parametric() ? a.par < b.par : false;
 
-        auto arity(a.sym->arity());
-        for (decltype(arity) i(0); i < arity; ++i)
-          if (a.args[i] < b.args[i])
-            return true;
-      }
-
-      return false;
+      // A strict weak ordering is required by `std::map`: arguments are
+      // compared lexicographically.
+      return std::lexicographical_compare(a.args.begin(), a.args.end(),
+                                          b.args.begin(), b.args.end());
     }
   };
 
